@@ -3,6 +3,7 @@ package homescript
 import (
 	"fmt"
 
+	"github.com/smarthome-go/homescript/v3/homescript/compiler"
 	"github.com/smarthome-go/homescript/v3/homescript/errors"
 	"github.com/smarthome-go/homescript/v3/homescript/runtime"
 )
@@ -173,4 +174,72 @@ func VerifHarness_MemoryLimit() {
 	}
 	errors.VerifReached("ran")
 	errors.VerifAssert("bounded-depth-loop-runs-indefinitely", (classes[0] == "ok") == (classes[1] == "ok"))
+}
+
+// verifFrameSize reads the frame size (number of variable slots) of the function whose mangled name ends in
+// "_"+name from the compiler's output: the operand of its first AddMempointer instruction.
+func verifFrameSize(an verifAnalysis, name string) (int64, bool) {
+	comp := compiler.NewCompiler(an.modules, verifFile)
+	compiled, err := comp.Compile()
+	if err != nil {
+		return 0, false
+	}
+	for mangled, insts := range compiled.Functions {
+		if !verifHasSuffix(mangled, "_"+name) {
+			continue
+		}
+		for _, in := range insts {
+			if in.Opcode() == compiler.Opcode_AddMempointer {
+				return in.(compiler.OneIntInstruction).Value, true
+			}
+		}
+	}
+	return 0, false
+}
+
+func verifHasSuffix(s, suf string) bool { return len(s) >= len(suf) && s[len(s)-len(suf):] == suf }
+
+// VerifHarness_MemoryDemand: the memory demand of rec(N) is frame(main) + (N+1)*frame(rec) slots (frame sizes
+// read from the compiler's output, N a solver variable); the memory limit is a selector. A demand below the limit
+// must complete, a demand of one whole frame beyond it must be stopped with the out-of-memory interrupt.
+func VerifHarness_MemoryDemand() {
+	nmax := errors.VerifParam("N", 5)
+	n := errors.VerifNdInt64("N")
+	errors.VerifAssume(n >= 0)
+	errors.VerifAssume(n <= int64(nmax))
+	inputs := []verifInput{{name: "N", kind: 'i', i: n}}
+	an := verifAnalyze(verifLimitsRecProgram, nil, inputs, true)
+	if an.hasError {
+		errors.VerifInconclusive("limit program rejected: " + an.describe())
+	}
+	kMain, ok1 := verifFrameSize(an, "main")
+	kRec, ok2 := verifFrameSize(an, "rec")
+	if !ok1 || !ok2 || kRec <= 0 {
+		errors.VerifInconclusive("frame sizes not found in the compiler output")
+	}
+	mem := errors.VerifNdIntRange("mem", 0, int(kMain+(int64(nmax)+3)*kRec))
+	errors.VerifTag("mem", fmt.Sprint(mem))
+	limits := verifLimits
+	limits.MaxMemorySize = uint(mem)
+	o, crashed, msg := verifRunVMGuarded(an, inputs, limits)
+	if crashed {
+		errors.VerifTag("panic", errors.VerifNorm(msg))
+	}
+	errors.VerifAssert("limit-never-crashes-the-host", !crashed)
+	if crashed {
+		return
+	}
+	errors.VerifReached("ran")
+	peak := kMain + (n+1)*kRec // highest memory pointer reached
+	ok := o.class == "ok"
+	errors.VerifAssert("outcome-is-completion-or-out-of-memory", ok || verifIsOverflow(o.class) || o.class == "init-interrupt")
+	if ok {
+		errors.VerifAssert("within-limit-output-unchanged", o.out == fmt.Sprint(n)+"\n")
+	}
+	if peak < int64(mem) {
+		errors.VerifAssert("within-the-limit-is-not-stopped", ok)
+	}
+	if peak >= int64(mem)+kRec {
+		errors.VerifAssert("exceeding-the-limit-is-stopped", !ok)
+	}
 }
